@@ -13,7 +13,7 @@ RULE = ("Hypothesis builds programs of 1-40 statements from 8-integer prototypes
         "label+-k,PCR, n,PCR, short and long branches, register lists and pairs), FCB/FDB/FCC/RMB of varying lengths, "
         "EQU (before or after use), NAM, SETDP, END; labels on any statement, forward and backward references through "
         "EQU symbols, labels and label+-n; origin from a boundary list or arbitrary, or no ORG at all. Negative "
-        "variants: a duplicated label, an undefined symbol, a second ORG / code before ORG, a further ORG naming "
+        "variants: a duplicated label, an undefined symbol (14 operand positions incl. FCB/FDB lists), a second ORG / code before ORG, a further ORG naming "
         "exactly the current location (rejected, or nothing - the reported origin included - changes). A second search feeds "
         "the same kind of program through INCLUDE: a block of its label-free self-contained statements is spliced in "
         "two or three times from one file (side by side or through a wrapper file) and a stretch of the text is moved "
@@ -148,7 +148,18 @@ def apply_negative(case):
         stmts[free[case["at2"] % len(free)]]["lab"] = src
         return prog, neg
     if neg == "undef_symbol":
-        stmts.insert(1 + case["at"] % len(stmts), {"lab": "", "k": "imm16", "mn": "LDX", "val": {"sym": "NOSUCH", "op": "", "c": 0}})
+        # a name that is never defined, in every kind of operand position (alone, in an expression, inside a list)
+        bad = {"sym": "NOSUCH", "op": ["", "+", "-"][case["at2"] % 3], "c": (case["at2"] // 3) % 3 + 1}
+        if not bad["op"]:
+            bad["c"] = 0
+        one = proggen.lit(1)
+        forms = [
+            {"k": "imm16", "mn": "LDX", "val": bad}, {"k": "imm8", "mn": "LDA", "val": bad}, {"k": "mem", "mn": "STA", "val": bad},
+            {"k": "extind", "mn": "JMP", "val": dict(bad, op="", c=0)}, {"k": "idx", "mn": "LDA", "reg": "X", "ind": False, "val": bad},
+            {"k": "pcr", "mn": "LEAX", "ind": False, "val": bad}, {"k": "br", "mn": "BRA", "to": "NOSUCH"}, {"k": "br", "mn": "LBSR", "to": "NOSUCH"},
+            {"k": "fcb", "vals": [bad]}, {"k": "fdb", "vals": [bad]}, {"k": "fcb", "vals": [one, bad, one]}, {"k": "fdb", "vals": [one, bad]},
+            {"k": "fdb", "vals": [bad, one, one]}, {"k": "rmb", "val": dict(bad, op="", c=0)}]
+        stmts.insert(1 + case["at"] % len(stmts), dict(forms[case["at2"] % len(forms)], lab=""))
         return prog, neg
     if neg == "second_org":
         body = [i for i, s in enumerate(stmts) if proggen.size_bounds(s)[0] > 0]
